@@ -56,10 +56,14 @@ def equiv_check(prop, tier, seed, jobs, pairs, mcs=None, mc_generated=None, job_
                 err = r.get("error", {})
                 if p.get("baseline_may_fail") and side == "a":
                     continue
-                if C.documented_rejection(err):
-                    skipped.append({"label": p.get("label"), "reason": err.get("msg")})
-                    continue
                 key = f"exception.{err.get('type')}"
+                if C.documented_rejection(err):
+                    # a documented rejection is a legitimate outcome of a configuration - but two configurations that the property declares
+                    # equivalent (rule identity) must be accepted or rejected TOGETHER: the variant rejected while the baseline ran is an effect
+                    if not (side == "b" and ta is not None and p.get("rule") == "identity" and not p.get("b_may_reject")):
+                        skipped.append({"label": p.get("label"), "reason": err.get("msg")})
+                        continue
+                    key = f"rejectedVariant.{err.get('type')}"
                 V.add(key, p.get("scenario"), {"label": p.get("label"), "side": side, "error": err, "job": jobs[jid] if jid < len(jobs) else None})
         if ta is None or tb is None:
             continue
